@@ -28,8 +28,13 @@ CLAIMED = {
         "technique": "def-use signature pairing of gather/scatter masks; reachability census of self.* stores and RNG draws from predict entry points; copy-provenance rule; Cython parse-tree query",
         "note": _COMMON_NOTE + " Declined: equality of outputs row-vs-batch, after pickle, or after cloning (batch statistics hidden in arithmetic cannot be excluded by shape).",
     },
+    "C05": {
+        "text": "Abstract interpretation over the orientation domain {over-prediction, under-prediction} -> linear polynomial in q: the multiplier built by _epsilon and the transforms applied by each consumer (IRLS weights and error in fit, the score) must give exactly c x (over: 1-q, under: q), c = 1 in fit and 2 in score, with the call's argument roles (targets first, predictions second) checked; plus the structural clauses of fit_intercept/positive. This decides, for every q at once, that fit and score optimise/report the same loss, which is what the property's 'score returns exactly twice the mean of that same loss' needs; optimality up to IRLS tolerance is numerical and declined.",
+        "technique": "abstract interpretation (sign -> linear polynomial in q) of the loss multiplier and its consumers; structural checks of intercept handling",
+        "note": _COMMON_NOTE + " Declined: optimality of the fitted hyperplane, fraction of targets below it, weight/duplication equivalence (numerical).",
+    },
 }
 
 NOT_APPLICABLE = {}
 
-FIX_COMMITS = ["6505037", "37050b8", "33dee10", "d99d4dd", "4f7666c", "028434d", "395087d", "d475015", "054609b", "c1a2672", "079fb2a", "e434baf", "260aa11", "297c1aa"]
+FIX_COMMITS = ["6505037", "37050b8", "33dee10", "d99d4dd", "4f7666c", "028434d", "395087d", "d475015", "054609b", "c1a2672", "079fb2a", "e434baf", "260aa11", "297c1aa", "10b6b5d"]
